@@ -1,14 +1,14 @@
 #!/bin/sh
-# seedprep.sh <property-id> <tag>: prepare a scratch worktree /tmp/seed-<tag> of /repo HEAD for a sub-agent that is to write
+# seedprep.sh <property-id> <tag> [focus]: prepare a scratch worktree /tmp/seed-<tag> of /repo HEAD for a sub-agent that is to write
 # a seeded change breaking <property-id>.  The worktree gets TASK.md holding only the text of the property and the
 # deliverable format (nothing from /verif).  Prints the worktree path.
-P=$1; T=$2; W=/tmp/seed-$T
+P=$1; T=$2; F=$3; W=/tmp/seed-$T
 git -C /repo worktree remove --force $W 2>/dev/null; rm -rf $W
 git -C /repo worktree add --detach $W HEAD >/dev/null 2>&1 || exit 2
 mkdir -p $W/_seed
-python3 - "$P" "$W" <<'PY'
+python3 - "$P" "$W" "$F" <<'PY'
 import json, sys
-pid, w = sys.argv[1], sys.argv[2]
+pid, w, focus = sys.argv[1], sys.argv[2], (sys.argv[3] if len(sys.argv) > 3 else "")
 for line in open("/verif/properties.jsonl"):
     p = json.loads(line)
     if p["id"] == pid:
@@ -53,6 +53,7 @@ could make; NOT a deliberate backdoor, not a change guarded by a magic value) su
 Prefer a part of the code or a situation that is NOT the most obvious one for this property: pick a less-travelled path
 (an option combination, a second context, a resize, a close or disconnect at an awkward moment, a boundary value, a
 less-used transport or protocol variant covered by the property).  Do not change tests.  Do not change public headers.
+{("Part of the property to aim at this time (other parts have been done already): " + focus) if focus else ""}
 
 Deliverables, all in `{w}/_seed/`:
 * `patch.diff`  - `git diff` of your change to src/ only (must apply with `git apply` to a clean checkout of this commit);
